@@ -41,9 +41,6 @@ def splitTarget (t : String) : String × String :=
   let cs := t.toList
   (String.ofList (cs.takeWhile (· ≠ '?')), String.ofList ((cs.dropWhile (· ≠ '?')).drop 1))
 
-def lastWins (ps : List (String × String)) : List (String × String) :=
-  ps.foldl (fun acc kv => (acc.filter (fun a => a.1 != kv.1)) ++ [kv]) []
-
 def run (c : Json) : E Json := do
   let hasDr := boolD c "dr" false
   let drBt := hasDr && boolD c "dr_bt" false
@@ -61,33 +58,29 @@ def run (c : Json) : E Json := do
       | some path =>
         let q : ReqView := { method := ← str op "method", scheme := "http", host := ← str op "host", rawPath, path }
         if (cands s.index (tokenize (lookupPath q)) []).length ≥ 2 then multi := multi + 1
-        match s.findRule hasDr q with
-        | .none => out := out ++ [Json.mkObj [("rule", Json.null), ("err", jstr "norule")]]
-        | .default =>
-          dflt := dflt + 1
-          if containsEncodedSlash rawPath then
-            out := out ++ [Json.mkObj [("rule", jstr "config/default"), ("exec", jstr "argument")]]
-          else
-            out := out ++ [Json.mkObj [("rule", jstr "config/default"), ("exec", jstr "ok"), ("caps", jarr [])]]
-        | .rule v ps =>
-          matched := matched + 1
-          let name := v.src ++ "/" ++ v.rid
-          if v.esh = .off && containsEncodedSlash rawPath then
-            out := out ++ [Json.mkObj [("rule", jstr name), ("exec", jstr "argument")]]
-          else
-            let caps := (sortPairs (lastWins ps)).map fun kv => jstrs [kv.1, unescapeCapture v.esh kv.2]
-            out := out ++ [Json.mkObj [("rule", jstr name), ("exec", jstr "ok"), ("caps", jarr caps)]]
+        let sv := s.serve hasDr q
+        match sv.rule, sv.exec with
+        | some (src, rid), some ex =>
+          if src == "config" then dflt := dflt + 1 else matched := matched + 1
+          match ex with
+          | .argument => out := out ++ [Json.mkObj [("rule", jstr (src ++ "/" ++ rid)), ("exec", jstr "argument")]]
+          | .ok caps =>
+            out := out ++ [Json.mkObj [("rule", jstr (src ++ "/" ++ rid)), ("exec", jstr "ok"),
+              ("caps", jarr ((sortPairs caps).map fun kv => jstrs [kv.1, kv.2]))]]
+        | _, _ => out := out ++ [Json.mkObj [("rule", Json.null), ("err", jstr "norule")]]
     else
       let src ← str op "src"
-      let res ← (do
-        if k == "del" then pure (s.deleteRuleSet src) else
+      let op ← (do
+        if k == "del" then pure (some (RepoOp.del src)) else
         let rules ← (← arr op "rules").mapM (parseRule drBt)
         if rules.any (·.isNone) then pure none else
         let rs := rules.filterMap id
-        pure (if k == "add" then s.addRuleSet src rs else s.updateRuleSet src rs))
-      match res with
-      | some s' => s := s'; out := out ++ [jstr "ok"]
+        pure (some (if k == "add" then RepoOp.add src rs else RepoOp.upd src rs)))
+      match op with
       | none => out := out ++ [jstr "internal"]
+      | some o =>
+        out := out ++ [jstr (if (s.apply o).isSome then "ok" else "internal")]
+        s := s.step o
   return Json.mkObj [("res", jarr out), ("stats", Json.mkObj [("multi", jnat multi), ("matched", jnat matched),
     ("default", jnat dflt)])]
 
